@@ -186,7 +186,10 @@ def cases(ctx: Ctx):
     for urn in ('b', 'c', 'a', 'zz', 'B', 'b\t', '', 'bk', 'bkx', 'z\u00fc', 'zu', 'z', 'b\u00fc',
                 'urn:{edge}', 'e{7}', 'x}', '{0}', '%s', '%(x)s', 'b{', '$b', 'b\\1', '(b', 'b*'):
         for key in ('kb', 'kc', 'ka', 'kx', 'KB', 'kb\x00', '', 'x', 'k', 'b', 'kbkb', 'kbx',
-                    'k\u00df\u20ac', 'k\u00df', 'kss\u20ac', 'kb\u00e9', '\u2063kb', '\uff4b\uff42', 'k\u0062\u0301'):
+                    'k\u00df\u20ac', 'k\u00df', 'kss\u20ac', 'kb\u00e9', '\u2063kb', '\uff4b\uff42', 'k\u0062\u0301',
+                    # the right key of 'z\u00fc' with OTHER characters outside ASCII in the same places (a comparison after a lossy
+                    # encoding -- errors='replace' / 'ignore', ascii(), casefolding -- takes them for the right one)
+                    'k\u00fc\u20ac', 'k\u20ac\u00df', 'k??', 'k\ufffd\ufffd', 'k\u00df\u00a3', 'k'):
             for ty, fl in ((0, 1), (1, 1), (2, 0)):
                 pt = '%s %s %d %d %s' % (urn, key, ty, fl, js_ok if ty != 1 else '{}')
                 yield g.sealed_case('urn-key-matrix', pt, addr=rng.choice(['6.6.6.6', '10.0.0.2']), via_loop=(ty == 2))
@@ -344,10 +347,56 @@ def oracle_conn(case, conn, obs, rig, items_before):
 
 def run(ctx: Ctx) -> Result:
     res = Result()
+    if ctx.replay is not None and ctx.replay['replay'].get('kind') == 'reset-storm':
+        reset_storm(res, ctx.rng)
+        return res
     if ctx.replay is not None:
         return run_cases(ctx, [ctx.replay['replay']], res, oracle_conn)
     run_cases(ctx, cases(ctx), res, oracle_conn)
+    reset_storm(res, ctx.rng)
     return res
+
+
+def reset_storm(res, rng):
+    """"the listener keeps serving later connections": strangers open connections and RESET them half-way (an OS-level
+    error of the accepted socket, not of the listening one), more often than any integer the listener is configured with
+    (max_listen, harvested from the constructor's defaults; twice that and then some), with nothing valid in between; then a
+    peer sends a valid message.  The accept loop is the real one; every connection must be served, nothing applied for the
+    strangers, the valid message accepted."""
+    import inspect
+    from bobocep.dist.tcp import BoboDistributedTCP
+    ints = [p.default for p in inspect.signature(BoboDistributedTCP.__init__).parameters.values()
+            if type(p.default) is int and 1 <= p.default <= 200]
+    msg = c10.valid_plaintexts()[1]
+    m = seal(msg[1], rng_nonce(rng))
+    for n in sorted({3, 8} | {k + 2 for k in ints} | {2 * k + 3 for k in ints if k <= 40}):
+        for how in ('reset-at-once', 'reset-half-way'):
+            case = {'kind': 'reset-storm', 'resets': n, 'how': how}
+            res.add_case(case, nontrivial=True)
+            res.count('reset_storm_cases')
+            conns = []
+            for k in range(n):
+                script = [['r']] if how == 'reset-at-once' else [['c', m[:20 + k % 9].hex()], ['r']]
+                conns.append(mk_conn(script, calm_clock(rng, 4), '6.6.6.%d' % (k % 200 + 1), expect={'kind': 'hostile'}))
+            conns.append(valid_conn(rng, msg, m, 64))
+            rig = Rig(64, 0)
+            before = rig.table()
+            try:
+                obs_list, end, info = rig.serve(conns)
+            except Exception as e:   # noqa
+                res.violations.append(Violation('listener-thread-ended', f"{case}: driving the accept loop raised {type(e).__name__}: {e}", case))
+                continue
+            served = [o for o in obs_list if o is not None]
+            if end != 'returned' or info['unserved'] or len(served) != len(conns):
+                res.violations.append(Violation(
+                    'listener-thread-ended',
+                    f"after {len(served)} connections reset by strangers ({how}) the real accept loop ended with {end!r}: "
+                    f"{info['unserved']} of {len(conns)} connections were never accepted, the peer's valid message among them", case))
+                continue
+            if served[-1]['out'] != 'accepted':
+                res.violations.append(Violation('valid-message-rejected', f"{case}: the valid message after the resets ended with {served[-1]['out']}", case))
+            elif any(o['out'] == 'accepted' or o['after'][1] != o['before'][1] or o['after'][0] != o['before'][0] for o in served[:-1]):
+                res.violations.append(Violation('unauthentic-accepted', f"{case}: a connection reset by a stranger changed the peer table or the incoming queue", case))
 
 
 def search(ctx: Ctx) -> Result:
@@ -361,7 +410,7 @@ def search(ctx: Ctx) -> Result:
             n += 1
             continue
         n += 1
-        rig = Rig(case['recv_bytes'], case.get('queue_cap', 0))
+        rig = Rig(case['recv_bytes'], case.get('queue_cap', 0), aes_key=case.get('rig_key', AES_KEY))
         for conn in case['conns']:
             if conn is None:
                 continue
